@@ -10,12 +10,12 @@ One row per (entry point or class-table slot) x (pointer-parameter position).
            slot    - static method reached through a class table (classvar->member)
   guard    the entry guard of the pinned source for that parameter (ASSERT_RVAL / REQUIRE_RVAL / ASSERT / REQUIRE /
            SPIF_OBJ_COMP_CHECK_NULL / SPIF_COMP_CHECK_NULL), or null
-  fail     failure value class: FALSE | NULL | MINUS1 | CMP_LESS | CMP_GREATER (NULL sorts below everything) | NAN | ZERO | TYPENAME | VOID
+  fail     failure value class: FALSE | NULL | MINUS1 | CMP_LESS | CMP_GREATER (NULL sorts below everything) | NAN | ZERO | TYPENAME | VOID | ANY (R2)
   claimed  the property makes a claim about this row.  Rules (the review decisions, applied uniformly):
            R1 a parameter with an entry guard whose failure value is a constant            -> claimed, fail from the guard
-           R2 the object argument (first parameter, the class's own type) of a method      -> claimed even without a
-              guard of its own (the object system documents that every method guards self; delegating one-liners
-              inherit the guard of their callee); fail from the return type
+           R2 the object argument (first parameter "self") of a method without a guard     -> claimed with fail = ANY: no failure
+              of its own (delegating one-liners, tolerant methods)                            value is documented, so only "no memory
+              fault, no exit at level 0, other arguments untouched" is demanded; the returned value and allocation are not judged
            R3 both arguments of a comp slot                                                -> claimed CMP (NULL ordering)
            R4 show(): NULL self is a defined input ("NULL" is appended to the buffer)      -> not claimed
            R5 a guard whose "failure value" is a call (init_from_ptr(self, NULL) == init)  -> NULL is a defined input, not claimed
@@ -147,20 +147,6 @@ def fail_class(val, ret):
     raise SystemExit("unclassified failure value %r" % val)
 
 
-def fail_from_ret(ret):
-    if ret == "spif_bool_t":
-        return "FALSE"
-    if ret == "spif_cmp_t":
-        return "CMP_LESS"
-    if ret == "double":
-        return "NAN"
-    if ret in ("spif_stridx_t", "spif_ustridx_t", "spif_memidx_t", "spif_listidx_t", "size_t", "unsigned long", "int"):
-        return "MINUS1"
-    if ret == "void":
-        return "VOID"
-    return "NULL"
-
-
 def main():
     repo = sys.argv[1]
     verif = os.path.dirname(os.path.dirname(os.path.abspath(__file__)))
@@ -221,7 +207,7 @@ def main():
                 elif is_comp and i <= 1 and f["ret"] == "spif_cmp_t":
                     claimed, fail, why = True, ("CMP_LESS" if i == 0 else "CMP_GREATER"), "R3 comp slot: NULL ordering"
                 elif is_self:
-                    claimed, fail, why = True, fail_from_ret(f["ret"]), "R2 object argument of a method (no guard of its own in the pinned source)"
+                    claimed, fail, why = True, "ANY", "R2 object argument of a method (no guard of its own in the pinned source)"
                 else:
                     why = "R6 no entry guard documented for this parameter"
                 rows.append(dict(file=f["file"], owner=OWNER[f["file"]], func=f["name"], via=via, classvar=var, member=member, iface=iface,
